@@ -134,6 +134,30 @@ change is kept, the check was extended, then re-confirmed):
 * `C19-r2-1` (package-level free list for unquote buffers) → long escaped strings with different content per thread;
 * `C03-r2-2` (truncation not reported when the reader returns its last chunk together with `io.EOF`; seen by C18) →
   two more entry points in C03 (readers returning data + `io.EOF`).
+* third round (`-r3-`; the authors were told what the first two rounds had done and asked to go elsewhere):
+  `C07-r3-2`, `C01-r3-1` (one element width for a whole typed array chosen from part of the elements / in an order-dependent
+  way) → `ext-pairs`: every ordered pair of width-boundary values per integer array kind; `C10-r3-1` (typed array of exactly
+  24 elements) → `ext-sizes`: every typed array and map with 23–257 elements; `C09-r3-1` (CBOR break in value position
+  accepted: key without value) → C09 monitors **every input a parser accepts** out of C03's byte-string space (3.5·10⁶
+  accepted inputs), not only the valid corpus; `C09-r3-2`, `C12-r3-2` (folders registered for a named primitive / a built-in
+  type) → seed group `SeedBuiltinFolders` — which uncovered a genuine defect (`2479531`); `C11-r3-2` (lazily allocated map
+  panics when its first entry is null and no length was announced) → containers whose first / only element is the zero
+  value of a pointer / interface / slice / map element type; `C14-r3-1` (one shared state for a processing unfolder of a
+  recursive type) → targets with registered custom unfolders in C14's all-pairs space; `C14-r3-2` (stacks not reset once they
+  outgrew their inline buffer) → abandoned documents nested 40 / 20×2 levels deep; `C15-r3-2` (strings reported by value for
+  `ParseString`, although the bytes may sit in the parser's own buffer after a `Write`) → entry points
+  `Write(head)` + `Parse(tail)` / `ParseString(tail)` with a byte-wise follow-up; `C02-r3-1` (parked digits not cleared
+  when a later write continues the number inside an object) → the scalar contexts are ordered so that "value followed by
+  another member" is inside every scope; `C17-r3-1` (an escape prefix kept in the encoder's scratch array, overwritten by a
+  17-character float) → longest number renderings and every escape class in the encoder alphabets; `C17-r3-2` (inline
+  folder bound to the context it was compiled in) → a second iterator component over the inline / `Folder` seed values;
+  `C20-r3-1`, `C20-r3-2` (second `EnableKeyCache`; empty key) → operation "EnableKeyCache again" and the empty key in C20;
+  `C19-r3-1` (escape sequence patched in a package-level buffer) → bodies that encode *different* characters of every escape
+  class; `C18-r3-1` (125-byte field name with a read boundary before the length byte; seen by C02) → long items with
+  marker-valued lengths in C18; `C03-r3-2` (panic exactly at the CBOR nesting limit with a length-prefixed item there; seen
+  by C05) → the deeply nested valid documents are also inputs of C03; `C19-r3-2` was dropped: after fix `8fd2914` its
+  demonstration no longer fails. Two authors mentioned crashes of the *unmodified* tree in passing; both were confirmed,
+  given corpus (seed groups `SeedShapedFolders`, `SeedInlineNested`) and repaired (`5d1408b`, `8fd2914`).
 
 | seed | what it needs to manifest (author's note) | caught by, when it was confirmed | caught by, final harness (`tools/seeds_regress.sh`: own property's check + the checks of the confirmation run) |
 |---|---|---|---|
